@@ -285,7 +285,8 @@ struct Stats {
     presence_patterns: HashSet<(String, Vec<bool>)>,
     samples: Vec<serde_json::Value>,
     /// first violating case per finding key (what fails, not which seed found it)
-    violations: BTreeMap<String, (u64, usize, Case, Outcome)>,
+    /// first violating case per finding key: (value index, case index, case, outcome, first value index of the worker that saw it)
+    violations: BTreeMap<String, (u64, usize, Case, Outcome, u64)>,
 }
 
 fn run_range(seed: u64, from: u64, to: u64, thorough: bool) -> Stats {
@@ -328,7 +329,7 @@ fn run_range(seed: u64, from: u64, to: u64, thorough: bool) -> Stats {
             if let Some((class, msg)) = &o.violation {
                 let key = finding_key_of(class, case, msg);
                 if st.violations.len() < 256 && !st.violations.contains_key(&key) {
-                    st.violations.insert(key, (i, ci, case.clone(), o));
+                    st.violations.insert(key, (i, ci, case.clone(), o, from));
                 }
             }
         }
@@ -486,6 +487,94 @@ fn minimise(mut case: Case, class: &Class, known_keys: &[String]) -> (Case, Outc
     (case, best, steps)
 }
 
+
+fn in_fresh_thread<T: Send + 'static>(f: impl FnOnce() -> T + Send + 'static) -> T {
+    std::thread::spawn(f).join().expect("harness thread panicked")
+}
+
+/// Everything a worker rendered, in order, from value `from` up to case `ci` of value `vi` (the probes of
+/// cases_for_value included).  Must run on a scratch thread: generating the cases executes the probes.
+fn trace_for(seed: u64, thorough: bool, from: u64, vi: u64, ci: usize) -> Vec<Case> {
+    let mut seq = vec![];
+    for v in from..=vi {
+        let cases = cases_for_value(seed, v, thorough);
+        seq.extend(cases.iter().take(2).cloned()); // the two probes
+        let upto = if v == vi { (ci + 1).min(cases.len()) } else { cases.len() };
+        seq.extend(cases[..upto].iter().cloned());
+    }
+    seq
+}
+
+/// Run a sequence of cases on a fresh thread (fresh thread-local state); the outcome of the last one if it
+/// violates `class`.
+fn sequence_violates(seq: &[Case], class: &Class) -> Option<Outcome> {
+    let (seq, class) = (seq.to_vec(), class.clone());
+    in_fresh_thread(move || {
+        let mut last = None;
+        for c in &seq {
+            last = Some(run_case(c));
+        }
+        last.filter(|o| matches!(&o.violation, Some((c, _)) if *c == class))
+    })
+}
+
+/// Shrink a history that ends in a violation: shortest suffix of whole values first, then delta debugging on
+/// the prefix (the failing case always stays last).
+fn minimise_sequence(mut seq: Vec<Case>, class: &Class) -> (Vec<Case>, Outcome, u32) {
+    let mut best = sequence_violates(&seq, class).expect("minimise_sequence called on a passing history");
+    let mut steps = 0;
+    let mut budget = 600;
+    // suffixes
+    let mut k = 2;
+    while k < seq.len() && budget > 0 {
+        let cand = seq[seq.len() - k..].to_vec();
+        budget -= 1;
+        if let Some(o) = sequence_violates(&cand, class) {
+            seq = cand;
+            best = o;
+            steps += 1;
+            break;
+        }
+        k *= 2;
+    }
+    // delta debugging on the prefix
+    let mut chunk = (seq.len() - 1).max(1) / 2;
+    while chunk >= 1 && budget > 0 {
+        let mut start = 0;
+        let mut removed_any = false;
+        while start + chunk <= seq.len() - 1 && budget > 0 {
+            let mut cand = seq.clone();
+            cand.drain(start..start + chunk);
+            budget -= 1;
+            if let Some(o) = sequence_violates(&cand, class) {
+                seq = cand;
+                best = o;
+                steps += 1;
+                removed_any = true;
+            } else {
+                start += chunk;
+            }
+        }
+        if chunk == 1 && !removed_any {
+            break;
+        }
+        chunk = if removed_any { chunk.min((seq.len() - 1).max(1)) } else { chunk / 2 };
+    }
+    // simpler values in every step, if the violation survives it
+    for tf in [|c: &Case| Case { simple: true, present_permille: 1000, ..c.clone() }, |c: &Case| Case { simple: true, ..c.clone() }] {
+        let cand: Vec<Case> = seq.iter().map(tf).collect();
+        if cand != seq {
+            if let Some(o) = sequence_violates(&cand, class) {
+                seq = cand;
+                best = o;
+                steps += 1;
+                break;
+            }
+        }
+    }
+    (seq, best, steps)
+}
+
 #[derive(Serialize, Deserialize)]
 struct ReplayFile {
     property: String,
@@ -495,6 +584,10 @@ struct ReplayFile {
     value_index: u64,
     case_index: usize,
     case: Case,
+    /// for a violation that depends on what was rendered before on the same thread: the whole history, in order;
+    /// `case` is its last element
+    #[serde(default)]
+    sequence: Option<Vec<Case>>,
     minimised_from: Option<Case>,
     minimise_steps: u32,
     rendering: String,
@@ -541,6 +634,13 @@ fn main() {
     if let Some(path) = arg(&args, "--replay") {
         let txt = std::fs::read_to_string(&path).unwrap_or_else(|e| { eprintln!("cannot read {path}: {e}"); std::process::exit(2) });
         let rf: ReplayFile = serde_json::from_str(&txt).unwrap_or_else(|e| { eprintln!("bad replay file: {e}"); std::process::exit(2) });
+        if let Some(seq) = &rf.sequence {
+            println!("replay of {path}: a history of {} renderings on one thread", seq.len());
+            for c in &seq[..seq.len().saturating_sub(1)] {
+                let o = run_case(c);
+                println!("  step: {} {:?} -> {}", c.type_name, c.sink, if o.returned_ok { "Ok" } else { "Err" });
+            }
+        }
         let o = run_case(&rf.case);
         println!("replay of {path}: type {} sink {:?}", rf.case.type_name, rf.case.sink);
         println!("  rendering : {:?}", o.reference_text);
@@ -617,8 +717,11 @@ fn main() {
     let d1 = run_all(threads, det_values);
     let d2 = run_all(3, det_values);
     let deterministic = d1.digest == d2.digest && d1.cases == d2.cases && d1.violations.keys().eq(d2.violations.keys());
-    if !deterministic {
-        eprintln!("HARNESS ERROR: two executions of seed {seed} differ (digest {:x} vs {:x}, cases {} vs {})", d1.digest, d2.digest, d1.cases, d2.cases);
+    if !deterministic && st.violations.is_empty() && d1.violations.is_empty() && d2.violations.is_empty() {
+        // every case is a pure function of its description as far as the harness is concerned, so this means the
+        // code under test renders the same value differently depending on what the thread rendered before - without
+        // (so far) breaking an invariant.  Not a verdict about C18; not silence either.
+        eprintln!("HARNESS ERROR: two executions of seed {seed} differ (digest {:x} vs {:x}, cases {} vs {}): renderings depend on the history of the thread", d1.digest, d2.digest, d1.cases, d2.cases);
         std::process::exit(2);
     }
 
@@ -626,10 +729,10 @@ fn main() {
     let mut violations: i32 = 0;
     let mut known_hits: Vec<String> = vec![];
     let known = known_findings(&format!("{verif_dir}/known_findings.json"));
-    let mut found: Vec<(&String, &(u64, usize, Case, Outcome))> = st.violations.iter().collect();
+    let mut found: Vec<(&String, &(u64, usize, Case, Outcome, u64))> = st.violations.iter().collect();
     found.sort_by_key(|(_, v)| (v.0, v.1));
     let mut unknown_keys: Vec<String> = vec![];
-    for (key, (vi, ci, case, o)) in found {
+    for (key, (vi, ci, case, o, worker_from)) in found {
         if let Some((_, what)) = known.iter().find(|(k, _)| k == key) {
             println!("KNOWN-FINDING: property=C18 {key}: {what}");
             known_hits.push(key.clone());
@@ -641,13 +744,45 @@ fn main() {
         }
         let (class, msg) = o.violation.clone().unwrap();
         eprintln!("found {key} at value {vi} case {ci}: {}; minimising ...", msg.chars().take(300).collect::<String>());
-        let (mcase, mo, steps) = minimise(case.clone(), &class, &known.iter().map(|(k, _)| k.clone()).collect::<Vec<_>>());
+        // does the case fail on its own (fresh thread, nothing rendered before)?
+        let alone = {
+            let (c, cl) = (case.clone(), class.clone());
+            in_fresh_thread(move || same_class(&c, &cl).is_some())
+        };
         let dir = format!("{verif_dir}/replays");
         let _ = std::fs::create_dir_all(&dir);
         let path = format!("{dir}/C18-seed{seed}-v{vi}-c{ci}.json");
+        if !alone {
+            // it needs what the same thread rendered before: rebuild that history, confirm, shrink, report it whole
+            let (wf, v, c) = (*worker_from, *vi, *ci);
+            let full = in_fresh_thread(move || trace_for(seed, thorough, wf, v, c));
+            if sequence_violates(&full, &class).is_none() {
+                eprintln!("HARNESS ERROR: the violation {key} seen at value {vi} case {ci} reproduces neither alone nor from the history of its worker (values {wf}..={vi})");
+                std::process::exit(2);
+            }
+            let n0 = full.len();
+            let (seq, mo, steps) = minimise_sequence(full, &class);
+            let last = seq.last().unwrap().clone();
+            let rf = ReplayFile {
+                property: "C18".into(), class: class.clone(), message: mo.violation.as_ref().map(|v| v.1.clone()).unwrap_or(msg), seed, value_index: *vi, case_index: *ci,
+                case: last.clone(), sequence: Some(seq.clone()), minimised_from: None, minimise_steps: steps,
+                rendering: mo.reference_text.clone(), sink_holds: mo.sink_text.clone(), returned_ok: mo.returned_ok,
+                history: mo.history.iter().map(|e| format!("{}:{}/{}", e.kind, e.taken, e.len)).collect(), finding_key: key.clone(),
+            };
+            std::fs::write(&path, serde_json::to_string_pretty(&rf).unwrap()).expect("cannot write replay file");
+            println!("violation class {class:?} on {} (value {vi}, case {ci}) that depends on what the thread rendered before; history of {n0} renderings minimised in {steps} steps to {}:", case.type_name, seq.len());
+            for c in &seq {
+                println!("    {} {:?}", c.type_name, c.sink);
+            }
+            println!("  {}", rf.message);
+            println!("VIOLATION property=C18 replay={path}");
+            exit = 1;
+            continue;
+        }
+        let (mcase, mo, steps) = minimise(case.clone(), &class, &known.iter().map(|(k, _)| k.clone()).collect::<Vec<_>>());
         let rf = ReplayFile {
             property: "C18".into(), class: class.clone(), message: mo.violation.as_ref().map(|v| v.1.clone()).unwrap_or(msg), seed, value_index: *vi, case_index: *ci,
-            case: mcase.clone(), minimised_from: if mcase != *case { Some(case.clone()) } else { None }, minimise_steps: steps,
+            case: mcase.clone(), sequence: None, minimised_from: if mcase != *case { Some(case.clone()) } else { None }, minimise_steps: steps,
             rendering: mo.reference_text.clone(), sink_holds: mo.sink_text.clone(), returned_ok: mo.returned_ok,
             history: mo.history.iter().map(|e| format!("{}:{}/{}", e.kind, e.taken, e.len)).collect(), finding_key: key.clone(),
         };
